@@ -53,6 +53,9 @@ func main() {
 	verif := fs.String("verif", "/verif", "verif directory")
 	file := fs.String("file", "", "replay file")
 	verbose := fs.Bool("v", false, "verbose")
+	max := fs.Int("max", 0, "harness: maximum number of variants (0 = all)")
+	allp := fs.Bool("allprops", false, "harness: evaluate every property on each variant")
+	kind := fs.String("kind", "", "harness: only sens / inv variants")
 	fs.Parse(os.Args[2:])
 	if e := os.Getenv("BB_REPO"); e != "" {
 		*repo = e
@@ -68,6 +71,39 @@ func main() {
 		fmt.Println(string(b))
 	case "dump":
 		dump(*repo, *verbose)
+	case "variant":
+		var only []string
+		if *prop != "" {
+			only = strings.Split(*prop, ",")
+		}
+		os.Exit(runVariantChild(*repo, *file, only))
+	case "harness":
+		harnessKind = *kind
+		res, gen, err := runHarness(*repo, *verif, *prop, 0, *max, *allp)
+		if err != nil {
+			fmt.Println("harness:", err)
+			os.Exit(2)
+		}
+		printHarness(*prop, res, gen, *verbose)
+	case "orphans":
+		// development aid: E1 obligations that no property selects
+		ctx, err := loadAll(*repo, "")
+		if err != nil {
+			fmt.Println("LOAD ERROR:", err)
+			os.Exit(2)
+		}
+		used := map[string]bool{}
+		for _, id := range props.IDs() {
+			ctx.C = an.NewCollector(ctx.P)
+			for _, o := range props.Get(id).Build(ctx) {
+				used[o.Key] = true
+			}
+		}
+		for _, o := range ctx.SimObs {
+			if !used[o.Key] {
+				fmt.Println(o.Key)
+			}
+		}
 	case "all":
 		// development aid: one load, every property; prints the violated obligation keys per property
 		ctx, err := loadAll(*repo, "")
@@ -263,6 +299,44 @@ func check(id, tier, repo, verif, onlyKey string) int {
 		}
 		return 0
 	}
+	var harness map[string]any
+	if tier == "thorough" {
+		res, gen, herr := runHarness(repo, verif, id, seed, 96, true)
+		if herr != nil {
+			fmt.Println("CHECKER-NOTE harness could not run:", herr)
+		} else {
+			h := summarise(id, res, gen)
+			own := 0
+			for _, r := range res {
+				if r.Compiled && r.V.Kind == "sens" {
+					for _, f := range r.Flagged {
+						if f == id {
+							own++
+						}
+					}
+				}
+			}
+			fmt.Printf("harness %s: %d single-site edits of the current tree generated in the property's files, %d evaluated, %d compiled; sensitivity: %d/%d flagged by some property (%d by %s itself); invariance: %d/%d verdict-preserving\n",
+				id, h.Generated, h.Evaluated, h.Compiled, h.SensFlagged, h.SensTotal, own, id, h.InvStable, h.InvTotal)
+			for _, g := range h.InvGaps {
+				fmt.Println("CHECKER-NOTE invariance-gap", g)
+			}
+			for i, sv := range h.Survivors {
+				if i < 12 {
+					fmt.Println("CHECKER-NOTE sensitivity-gap (edit not flagged by any property; may be behaviour-preserving)", sv)
+				}
+			}
+			byop := map[string]string{}
+			for k, v := range h.ByOp {
+				byop[k] = fmt.Sprintf("%d/%d", v[0], v[1])
+			}
+			harness = map[string]any{"generated": h.Generated, "evaluated": h.Evaluated, "compiled": h.Compiled,
+				"sensitivity_flagged_by_any_property": h.SensFlagged, "sensitivity_flagged_by_this_property": own, "sensitivity_total": h.SensTotal,
+				"invariance_stable": h.InvStable, "invariance_total": h.InvTotal, "by_operator": byop,
+				"survivors_sample": firstN(h.Survivors, 20), "invariance_gaps": h.InvGaps,
+				"note": "edits are generated from the current syntax tree, applied as in-memory overlays, type-checked and re-analysed; they never affect the verdict or the exit code"}
+		}
+	}
 	samples := pickSamples(all, seed)
 	ev := map[string]any{
 		"property_id": id,
@@ -290,6 +364,7 @@ func check(id, tier, repo, verif, onlyKey string) int {
 			"trusted_base": []string{"go/types", "golang.org/x/tools/go/ssa v0.29.0", "std-function model table", "reasoned exception tables in tool/internal/props"},
 			"analysed":     stats,
 			"floor_failures": floorFails,
+			"harness":        harness,
 			"exhaustive":   false,
 		},
 	}
@@ -367,4 +442,76 @@ func dump(repo string, verbose bool) {
 			fmt.Println("SPAWN", sp.Kind, sp.Func, "by", sp.Spawner, sp.Pos, sp.Held)
 		}
 	}
+}
+
+type harnessSummary struct {
+	Generated, Evaluated, Compiled     int
+	SensTotal, SensFlagged             int
+	InvTotal, InvStable                int
+	Survivors, InvGaps                 []string
+	ByOp                               map[string][2]int
+}
+
+func summarise(prop string, res []variantResult, gen int) harnessSummary {
+	h := harnessSummary{Generated: gen, Evaluated: len(res), ByOp: map[string][2]int{}}
+	for _, r := range res {
+		if !r.Compiled {
+			continue
+		}
+		h.Compiled++
+		flagged := len(r.Flagged) > 0
+		c := h.ByOp[r.V.Kind+":"+r.V.Op]
+		c[1]++
+		if r.V.Kind == "sens" {
+			h.SensTotal++
+			if flagged {
+				h.SensFlagged++
+				c[0]++
+			} else {
+				h.Survivors = append(h.Survivors, r.V.Pos+" "+r.V.Op+": "+r.V.Desc)
+			}
+		} else {
+			h.InvTotal++
+			if !flagged {
+				h.InvStable++
+				c[0]++
+			} else {
+				k := ""
+				for id, ks := range r.Keys {
+					k += id + ": " + strings.Join(ks, ", ") + "; "
+				}
+				h.InvGaps = append(h.InvGaps, r.V.Pos+" "+r.V.Op+": "+r.V.Desc+" => "+k)
+			}
+		}
+		h.ByOp[r.V.Kind+":"+r.V.Op] = c
+	}
+	return h
+}
+
+func printHarness(prop string, res []variantResult, gen int, verbose bool) {
+	h := summarise(prop, res, gen)
+	fmt.Printf("harness %s: generated %d, evaluated %d, compiled %d; sensitivity %d/%d flagged; invariance %d/%d stable\n", prop, h.Generated, h.Evaluated, h.Compiled, h.SensFlagged, h.SensTotal, h.InvStable, h.InvTotal)
+	var ops []string
+	for k := range h.ByOp {
+		ops = append(ops, k)
+	}
+	sort.Strings(ops)
+	for _, k := range ops {
+		fmt.Printf("  %-28s %d/%d\n", k, h.ByOp[k][0], h.ByOp[k][1])
+	}
+	for _, g := range h.InvGaps {
+		fmt.Println("CHECKER-NOTE invariance-gap", g)
+	}
+	if verbose {
+		for _, s := range h.Survivors {
+			fmt.Println("CHECKER-NOTE sensitivity-gap", s)
+		}
+	}
+}
+
+func firstN(a []string, n int) []string {
+	if len(a) > n {
+		return a[:n]
+	}
+	return a
 }
